@@ -648,8 +648,12 @@ func (p *Parser) parseSelectStatement() (ast.Statement, error) {
 				// Consume SELECT token before calling parseSelectStatement
 				p.advance() // Consume SELECT
 
-				// Parse the subquery
+				// Count the nesting level of the derived table (see parseFromTableReference)
+				if err := p.enterNesting(); err != nil {
+					return nil, err
+				}
 				subquery, err := p.parseSelectStatement()
+				p.leaveNesting()
 				if err != nil {
 					return nil, err
 				}
@@ -1068,6 +1072,13 @@ func (p *Parser) parseFromTableReference() (ast.TableReference, error) {
 
 		// Consume SELECT token before calling parseSelectStatement
 		p.advance() // Consume SELECT
+
+		// A derived table nests a query inside a query: count the level so
+		// that FROM (SELECT ... FROM (SELECT ...)) towers hit the depth limit
+		if err := p.enterNesting(); err != nil {
+			return tableRef, err
+		}
+		defer p.leaveNesting()
 
 		// Parse the subquery
 		subquery, err := p.parseSelectStatement()
